@@ -23,7 +23,7 @@ SIGS = ["none", "int", "str", "cref", "istr"]
 EXPECT = {"none": lambda a: 0, "int": lambda a: a * 7 + 1, "str": lambda a: a, "cref": lambda a: a, "istr": lambda a: (a + 100) * 1000 + a}
 ASSUMPTIONS = [
     "notify is called with explicit template arguments and correctly typed rvalues, and every observer under a router uses the same signature (the documented calling convention)",
-    "the match table of the specification (names a, b, c against the regexes .*, a, a|b, [^a], c) is checked against std::regex_match in every execution",
+    "the match table of the specification (names a, b, c, ab against the regexes .*, a, a|b, [^a], c, a|ab, a.*?) is checked against std::regex_match in every shard",
     "keys whose only observers are invalidated but not yet lazily removed may or may not survive a shrink (the model follows the code: they survive)",
     "order of deliveries across different keys is not judged; within one key it is subscription order",
     "TLC results are exhaustive for keys of depth <= 2 over {a,b}, <= 3 subscriptions (quick: <= 2 for the full pattern sets), patterns of <= 2 levels; deeper trees in thorough",
@@ -31,7 +31,8 @@ ASSUMPTIONS = [
 
 
 def level_match(l, name):
-    return {"r:.*": True, "r:a": name == "a", "r:a|b": name in ("a", "b"), "r:[^a]": name != "a", "r:c": name == "c"}.get(l, l == name)
+    return {"r:.*": True, "r:a": name == "a", "r:a|b": name in ("a", "b"), "r:[^a]": name in ("b", "c"), "r:c": name == "c",
+            "r:a|ab": name in ("a", "ab"), "r:a.*?": name in ("a", "ab")}.get(l, l == name)
 
 
 def harness():
@@ -140,13 +141,13 @@ def compare(g, probes, path, sig, recs, pid):
     return c06, c13
 
 
-YLEVELS = ["a", "b", "c", "r:.*", "r:a|b", "r:[^a]", "r:c"]
+YLEVELS = ["a", "b", "c", "r:.*", "r:a|b", "r:[^a]", "r:c", "ab", "r:a|ab", "r:a.*?"]
 YPROBES = [("a",), ("c",), ("a", "b"), ("r:.*", "r:.*"), ("a", "r:[^a]", "c"), ("r:.*", "r:.*", "r:.*"), ("r:a|b", "r:.*", "r:.*", "r:.*"),
-           ("a", "b", "c", "a"), ("r:[^a]",), ("b", "r:a|b")]
+           ("a", "b", "c", "a"), ("r:[^a]",), ("b", "r:a|b"), ("r:a|ab",), ("ab", "r:a.*?")]
 
 
 def y_scripts(seed, count):
-    """Random histories over deeper trees (keys of depth <= 4 over {a,b,c}, up to 8 subscriptions)."""
+    """Random histories over deeper trees (keys of depth <= 4 over {a,b,c,ab}, up to 8 subscriptions)."""
     rnd = random.Random("router-%s" % seed)
     lines, cfgs = [], {}
     for n in range(count):
@@ -158,7 +159,7 @@ def y_scripts(seed, count):
         for k in range(rnd.randrange(10, 40)):
             r = rnd.random()
             if (r < 0.3 or not alive) and nid <= 8:
-                key = tuple(rnd.choice("abc") for _ in range(rnd.randrange(1, 5)))
+                key = tuple(rnd.choice(["a", "b", "c", "a", "b", "ab"]) for _ in range(rnd.randrange(1, 5)))
                 steps.append(("Subscribe", key, nid))
                 alive.append(nid)
                 nid += 1
@@ -244,10 +245,10 @@ def check(pid, tier, seed):
     verdict = common.Verdict(pid)
     exe = harness()
     if tier == "quick":
-        plan = [("quick2", [("plain", sig) for sig in SIGS] + [("conc", "str"), ("conc", "int")])]
+        plan = [("quick2", [("plain", sig) for sig in SIGS] + [("conc", "str"), ("conc", "int")]), ("rx", [("plain", "int"), ("conc", "str")])]
     else:
         plan = [("quick2", [(rt, sig) for rt in ("plain", "conc") for sig in SIGS]), ("quick", [("plain", "istr"), ("conc", "str"), ("plain", "int")]),
-                ("deep", [("plain", "istr"), ("conc", "str")])]
+                ("deep", [("plain", "istr"), ("conc", "str")]), ("rx", [(rt, sig) for rt in ("plain", "conc") for sig in ("int", "str", "istr")])]
     mcs, dumps, samples = [], [], []
     tot_states = tot_edges = tot_cov = nexec = 0
     trees = set()
